@@ -143,12 +143,30 @@ def sk_tag(sk):
     return tt(sk)
 
 
+def json_copy_(x):
+    import json
+    return json.loads(json.dumps(x))
+
+
 def special_programs():
     """hand-written corner programs of the control facet (type errors in conditions, dictionary order,
     nested break/continue, 输出 from depth 3, final expression value)."""
     P = []
     def add(tag, p):
         p["tag"] = tag; P.append(p)
+    # loops whose bodies DECLARE names (1..9 per pass, after 0..9 names declared before the loop, also inside a method and through a called
+    # method's inputs): the loop variables keep following the collection whatever the body adds to the scope
+    for pre in (0, 1, 2, 3, 4, 6, 7, 9):
+        for inner in (1, 2, 3, 5, 9):
+            prelude = [decl("Q%d" % j, num(j)) for j in range(pre)]
+            body = [decl("T%d" % j, bin_("add", var("V"), num(j))) for j in range(inner)] + [disp(var("I"), var("V"), var("T%d" % (inner - 1)))]
+            loop = iter_(["I", "V"], lst(num(10), num(20), num(30), num(40)), body)
+            dloop = iter_(["K", "W"], dct(["x", "y", "z"], [num(1), num(2), num(3)]), [decl("U%d" % j, var("W")) for j in range(inner)] + [disp(var("K"), var("W")), if_([bin_("eq", var("W"), num(2))], [[CONT]]), mark("after")])
+            add("iter-declares-%d-after-%d" % (inner, pre), prog(prelude + [loop, dloop, mark("end"), ex(num(0))]))
+            if pre in (0, 3) and inner in (1, 3, 9):
+                add("iter-declares-%d-after-%d-in-method" % (inner, pre), prog([disp(call("F", num(1))), ex(num(0))], funcs=[func("F", ["P"], json_copy_(prelude) + [json_copy_(loop), json_copy_(dloop), ret(var("P"))])]))
+                callee = func("G", ["A%d" % j for j in range(inner)], [ret(var("A0"))])
+                add("iter-calls-method-with-%d-inputs-after-%d" % (inner, pre), prog(json_copy_(prelude) + [iter_(["I", "V"], lst(num(10), num(20), num(30)), [disp(var("I"), var("V"), call("G", *[var("V")] * inner)), disp(var("I"), var("V"))]), ex(num(0))], funcs=[callee]))
     add("cond-number", prog([mark("a"), if_([num(1)], [[mark("b")]]), mark("c")]))
     add("while-cond-text", prog([mark("a"), while_(s("x"), [mark("b")]), mark("c")]))
     add("elseif-second", prog([if_([b(False), b(True), b(True)], [[mark("1")], [mark("2")], [mark("3")]], [mark("e")]), ex(num(1))]))
